@@ -23,7 +23,20 @@ use zcash_transparent::address::TransparentAddress;
 use zcash_transparent::bundle::{OutPoint, TxOut};
 use zcash_transparent::keys::{AccountPrivKey, IncomingViewingKey};
 
-pub const SHAPES: &[&str] = &["t2o_v5", "s2o_v5", "o2i_v6", "multi_v6"];
+pub const SHAPES: &[&str] = &["t2o_v5", "s2o_v5", "o2i_v6", "multi_v6", "memo_v5", "memo_v6"];
+
+/// The memo-length lattice of the stripped memo-plaintext representation (one symbol on each side
+/// of `len > MEMO_SIZE`, of "trailing zero bytes are stripped", and of the empty memo): all zero
+/// (stripped length 0), the 0xF6 "no memo" marker, one byte, 511 bytes, all 512 bytes used (last
+/// byte non-zero), content followed by explicit zero padding.
+pub fn memo_lattice() -> Vec<MemoBytes> {
+    let m = |b: &[u8]| MemoBytes::from_bytes(b).expect("memo of at most 512 bytes");
+    vec![m(&[]), MemoBytes::empty(), m(b"a"), m(&[0x42; 511]), m(&[0x43; 512]), m(&[&[0x44u8; 256][..], &[0u8; 256][..]].concat())]
+}
+
+pub fn is_memo_shape(name: &str) -> bool {
+    name.starts_with("memo_")
+}
 
 fn network(nu6_3: bool) -> LocalNetwork {
     LocalNetwork {
@@ -211,6 +224,16 @@ pub fn build_shape(name: &str) -> Result<Shape, String> {
             1_000_000,
             0,
         ),
+        "memo_v5" => (
+            BuildConfig::Standard { sapling_anchor: None, orchard_anchor: Some(empty_o), ironwood_anchor: None, orchard_padding: BundlePadding::DEFAULT, ironwood_padding: BundlePadding::DEFAULT },
+            1_000_000,
+            50_000,
+        ),
+        "memo_v6" => (
+            BuildConfig::Standard { sapling_anchor: None, orchard_anchor: None, ironwood_anchor: Some(empty_o), orchard_padding: BundlePadding::DEFAULT, ironwood_padding: BundlePadding::DEFAULT },
+            1_000_000,
+            50_000,
+        ),
         "multi_v6" => (
             BuildConfig::Standard { sapling_anchor: Some(s_anchor), orchard_anchor: Some(o_anchor), ironwood_anchor: Some(empty_o), orchard_padding: BundlePadding::DEFAULT, ironwood_padding: BundlePadding::DEFAULT },
             3_000_000,
@@ -235,6 +258,19 @@ pub fn build_shape(name: &str) -> Result<Shape, String> {
             "o2i_v6" => {
                 b.add_orchard_spend::<FE>(k.o_fvk.clone(), o_note_v2, o_path.clone()).map_err(|x| e(format!("{x:?}")))?;
                 b.add_ironwood_output::<FE>(Some(o_ovk.clone()), o_recipient, zat(change), MemoBytes::from_bytes(b"to ironwood").expect("memo")).map_err(|x| e(format!("{x:?}")))?;
+            }
+            "memo_v5" | "memo_v6" => {
+                b.add_transparent_p2pkh_input(k.t_pk, utxo.clone(), coin.clone()).map_err(|x| e(format!("{x:?}")))?;
+                let memos = memo_lattice();
+                let last = memos.len() - 1;
+                for (i, memo) in memos.into_iter().enumerate() {
+                    let v = zat(if i == last { change } else { 10_000 });
+                    if name == "memo_v5" {
+                        b.add_orchard_output::<FE>(Some(o_ovk.clone()), o_recipient, v, memo).map_err(|x| e(format!("{x:?}")))?;
+                    } else {
+                        b.add_ironwood_output::<FE>(Some(o_ovk.clone()), o_recipient, v, memo).map_err(|x| e(format!("{x:?}")))?;
+                    }
+                }
             }
             "multi_v6" => {
                 b.add_transparent_p2pkh_input(k.t_pk, utxo.clone(), coin.clone()).map_err(|x| e(format!("{x:?}")))?;
